@@ -168,7 +168,16 @@ func init() {
 		return []string{r}
 	})
 	def("strings.ReplaceAll", none, func(g *gen, st *state, c *ssa.CallCommon, a []string, in ssa.Instruction) []string {
-		return []string{g.define("repl", "String", app("strReplaceAll", a[0], a[1], a[2]))}
+		r := g.define("repl", "String", app("strReplaceAll", a[0], a[1], a[2]))
+		if g.con.flag("runes") {
+			if oc, ok := c.Args[1].(*ssa.Const); ok && oc.Value != nil {
+				if old := constString(oc); len(old) == 1 && old[0] < 0x80 {
+					g.runeFacts(c.Args[2], a[2])
+					g.assume(sEq(app("runesOf", r), app("repSeq", app("runesOf", a[0]), fmt.Sprint(int(old[0])), app("runesOf", a[2]))))
+				}
+			}
+		}
+		return []string{r}
 	})
 
 	def("strings.EqualFold", none, func(g *gen, st *state, c *ssa.CallCommon, a []string, in ssa.Instruction) []string {
